@@ -241,3 +241,20 @@ def _initial(ctx):
                     rep.fail('R4', 'initial-site-%s' % fld, where(fw), 'cannot bound the initial value: %s' % str(e)[:100], 'undecidable-shape')
         else:
             rep.fail('R4', 'from_wyckoff-loop-free', where(fw), 'from_wyckoff is not a single loop-free path', 'undecidable-shape')
+
+
+def thorough(ctx):
+    """Thorough tier: compile-fail witnesses (+ compiling twins) for the type-level remainder."""
+    from ..witness import run_witnesses
+    rep = ctx.rep
+    res, tail, rc = run_witnesses(ctx.repo)
+    wanted = {'W3aCellIsPrivate': 'the parameter cell is private', 'W3bBasisFieldsArePrivate': 'bounds of a handle cannot be forged', 'W3cOptimiserFieldsArePrivate': 'optimiser fields are private'}
+    n = 0
+    for name, verdict in sorted(res.items()):
+        w, kind, _line = name.split(':')
+        if w not in wanted:
+            continue
+        n += 1
+        rep.check(verdict == 'ok', 'W', '%s:%s' % (w, kind), 'witness/src/lib.rs', wanted[w] + (' (does not compile)' if kind == 'compile_fail' else ' (twin compiles)'),
+                  'witness %s/%s failed: the type-level guarantee "%s" no longer holds for downstream code (or the public API it uses changed)' % (w, kind, wanted[w]))
+    rep.floor('W', 'witness doctests', n, 6, 'witness/src/lib.rs')
